@@ -32,6 +32,14 @@ CLAIMS["C17"] = dict(engine="E1+E2", technique="CrossHair symbolic execution (z3
          "Counterexamples are replayed with real zlib (constant and pseudo-random plaintexts around the limit, a 64 MiB bomb under tracemalloc).",
     ref="DESIGN.md §4 C17")
 
+CLAIMS["C01"] = dict(engine="E1+E2", technique="CrossHair symbolic execution (z3) of the real JWS verification code with opaque codecs, fake native keys and solver-chosen primitive verdicts; pysym/z3 for the ECDSA R||S length gate and split",
+    text="For every header shape, key form, allow-list, signature count (0..2) and every combination of primitive verdicts inside the "
+         "bounds, each path of deserialize_compact/deserialize_json/rfc7797.* returns only if >= 1 verification primitive was called, "
+         "every one answered valid, and each was asked about exactly the received protected-header and payload segments with the key "
+         "resolved for that signature and the RFC's parameters for its alg. Counterexamples are rebuilt as real tokens (real keys, "
+         "independent signer) and judged by an independent verifier before being reported.",
+    ref="DESIGN.md §4 C01")
+
 PENDING = {}
 
 
